@@ -97,6 +97,8 @@ def expect_init_size(world, idx, sub, size, blk):
     if c is not None:
         return ("abort", c)
     o = world.om.get((idx, sub))
+    if o is not None and o.kind == "usr" and o.usr[0] > 4 and o.usr[2] and size == o.usr[0]:
+        return ("abort", None)            # the type refuses the start of the write
     if o is None or o.kind == "usr":
         return ("any", None)
     cap = o.size()
@@ -123,7 +125,7 @@ def c04_matrix(res, run, world, rng, n_extra):
         for n in range(4):
             reqs.append(("exp", n, 1, bytes([0x23 | (n << 2)]) + m + gen.rand_bytes(rng, 4)))
         reqs.append(("exp", 0, 0, bytes([0x22]) + m + gen.rand_bytes(rng, 4)))
-        cap = o.size() if o is not None and o.kind != "usr" else 4
+        cap = o.size() if o is not None and o.kind != "usr" else (o.usr[0] if o is not None and o.usr[0] else 4)
         for sz in sorted(set([1, 2, 4, 5, cap, cap + 1, max(1, cap - 1), 0xFFFFFFFF])):
             reqs.append(("seginit", sz, bytes([0x21]) + m + le32(sz)))
             reqs.append(("blkinit", sz, bytes([0xC2]) + m + le32(sz)))
@@ -159,6 +161,8 @@ def c04_matrix(res, run, world, rng, n_extra):
                 c = resolve(world, idx, sub, False)
                 if c is not None:
                     exp = ("abort", c)
+                elif o is not None and o.kind == "usr" and o.usr[0] > 4 and o.usr[1] and 1 <= rq[1] <= 127:
+                    exp = ("abort", None)     # the type refuses the read: no positive block upload answer
                 elif o is not None and o.kind == "usr":
                     exp = ("any", None)
                 elif not (1 <= rq[1] <= 127):
